@@ -18,9 +18,10 @@ const ID = "C11"
 
 // OpA is one container operation.  Errs holds error ids; 0 stands for a nil error.
 type OpA struct {
-	K       string `json:"k"` // adderr | addlist | errors
+	K       string `json:"k"` // adderr | addlist | errors | merge (other.AddErrorList(this.Errors())) | reuse (caller overwrites the list it passed last)
 	Errs    []int  `json:"errs,omitempty"`
 	NilList bool   `json:"nil_list,omitempty"` // addlist(nil)
+	On      int    `json:"on,omitempty"`       // which of the two containers (0 = the one built by Ctor, 1 = a second NewErrorContainer)
 }
 
 type CaseA struct {
@@ -35,16 +36,20 @@ type idErr struct {
 func (e *idErr) Error() string { return fmt.Sprintf("E%d", e.id) }
 
 func checkA(c CaseA) *ev.Violation {
-	var ec *tabular.ErrorContainer
+	var ecs [2]*tabular.ErrorContainer
 	switch c.Ctor {
 	case "new":
-		ec = tabular.NewErrorContainer()
+		ecs[0] = tabular.NewErrorContainer()
 	case "zero":
-		ec = &tabular.ErrorContainer{}
+		ecs[0] = &tabular.ErrorContainer{}
 	case "nil":
-		ec = nil
+		ecs[0] = nil
 	}
-	var model []error
+	ecs[1] = tabular.NewErrorContainer()
+	if c.Ctor == "zero" {
+		ecs[1] = &tabular.ErrorContainer{}
+	}
+	var models [2][]error
 	pool := map[int]error{}
 	get := func(id int) error {
 		if id == 0 {
@@ -55,23 +60,27 @@ func checkA(c CaseA) *ev.Violation {
 		}
 		return pool[id]
 	}
+	var lastList []error // the list the caller passed most recently (it still owns it)
 	observe := func(step int, k string) *ev.Violation {
-		got := ec.Errors()
-		if len(model) == 0 || ec == nil {
-			if got != nil {
-				return ev.V("step %d (%s): Errors() is %v (len %d) but the container should hold nothing: want nil", step, k, got, len(got))
+		for which, ec := range ecs {
+			model := models[which]
+			got := ec.Errors()
+			if len(model) == 0 || ec == nil {
+				if got != nil {
+					return ev.V("step %d (%s): container %d: Errors() is %v (len %d) but the container should hold nothing: want nil", step, k, which, got, len(got))
+				}
+				continue
 			}
-			return nil
-		}
-		if len(got) != len(model) {
-			return ev.V("step %d (%s): Errors() has %d entries %v, want %d %v", step, k, len(got), got, len(model), model)
-		}
-		for i := range model {
-			if got[i] == nil {
-				return ev.V("step %d (%s): Errors()[%d] is nil", step, k, i)
+			if len(got) != len(model) {
+				return ev.V("step %d (%s): container %d: Errors() has %d entries %v, want %d %v", step, k, which, len(got), got, len(model), model)
 			}
-			if got[i] != model[i] {
-				return ev.V("step %d (%s): Errors()[%d] is %v, want %v (order of occurrence)", step, k, i, got[i], model[i])
+			for i := range model {
+				if got[i] == nil {
+					return ev.V("step %d (%s): container %d: Errors()[%d] is nil", step, k, which, i)
+				}
+				if got[i] != model[i] {
+					return ev.V("step %d (%s): container %d: Errors()[%d] is %v, want %v (order of occurrence; %v vs %v)", step, k, which, i, got[i], model[i], got, model)
+				}
 			}
 		}
 		return nil
@@ -80,6 +89,8 @@ func checkA(c CaseA) *ev.Violation {
 		return v
 	}
 	for i, op := range c.Ops {
+		on := op.On & 1
+		ec := ecs[on]
 		switch op.K {
 		case "adderr":
 			id := 0
@@ -89,21 +100,40 @@ func checkA(c CaseA) *ev.Violation {
 			e := get(id)
 			ec.AddError(e)
 			if e != nil && ec != nil {
-				model = append(model, e)
+				models[on] = append(models[on], e)
 			}
 		case "addlist":
 			var list []error
 			if !op.NilList {
-				list = make([]error, 0, len(op.Errs))
+				list = make([]error, 0, len(op.Errs)+2)
 				for _, id := range op.Errs {
 					list = append(list, get(id))
 				}
 			}
 			ec.AddErrorList(list)
+			lastList = list
 			for _, e := range list {
 				if e != nil && ec != nil {
-					model = append(model, e)
+					models[on] = append(models[on], e)
 				}
+			}
+		case "merge":
+			// collect this container's errors into the other one
+			other := 1 - on
+			if ecs[other] == nil {
+				break
+			}
+			ecs[other].AddErrorList(ec.Errors())
+			if ec != nil {
+				models[other] = append(models[other], models[on]...)
+			}
+		case "reuse":
+			// the caller recycles the slice it handed over: overwrite and extend it
+			for k := range lastList {
+				lastList[k] = nil
+			}
+			if cap(lastList) > len(lastList) {
+				lastList = append(lastList, &idErr{-1})
 			}
 		case "errors":
 		}
